@@ -15,6 +15,9 @@
 //! api ops: <task>.<cmd>  (tasks: conn, drv, snd, q<sid>, q<sid>s); `conn.U` / `drv.U` list and drain the
 //!   WebTransport uni streams accepted so far (`<session>:<hex>:<open|fin|rst<c>>,…`); <task>.kill drops
 //!   the task's future, <task>.kill? does the same but tolerates a task that does not exist (any more)
+//!   stream commands: `rda` = recv_data until it answers `end` or an error (each answer one `rd=`
+//!   entry); a trailing `!` on a stream command (`rr!`, `rd!`, `rda!`, `rt!`, …) ends the task when
+//!   that call answers with an error (later commands then answer `no-task`)
 #![allow(dead_code)]
 use crate::exec::*;
 use crate::sim::*;
@@ -45,6 +48,11 @@ impl Ctx {
     fn log(&self, task: &str, op: &str, res: String) {
         self.inflight.borrow_mut().remove(task);
         self.trace.borrow_mut().push(format!("{}.{}={}", task, op, res));
+    }
+    /// did the last completed call of `task` answer with an error?
+    fn last_failed(&self, task: &str) -> bool {
+        let p = format!("{}.", task);
+        self.trace.borrow().iter().rev().find(|e| e.starts_with(&p)).map(|e| e.contains("=err:")).unwrap_or(false)
     }
     fn begin(&self, task: &str, op: &str) {
         self.inflight.borrow_mut().insert(task.to_string(), op.to_string());
@@ -190,6 +198,17 @@ macro_rules! stream_cmd {
                 let r = trailers_result($st.recv_trailers().await);
                 ctx.log(name, "rt", r);
             }
+            // the documented body loop: recv_data until it answers `end` or an error
+            // (every answer is logged as one `rd=` entry)
+            "rda" => loop {
+                ctx.begin(name, "rd");
+                let r = data_result($st.recv_data().await);
+                let more = r.starts_with("data:");
+                ctx.log(name, "rd", r);
+                if !more {
+                    break;
+                }
+            },
             "sd" => {
                 ctx.begin(name, "sd");
                 let b = parse_hex(arg).unwrap_or_default();
@@ -223,6 +242,11 @@ macro_rules! stream_cmd {
 async fn server_stream_task(name: String, mut st: SrvStream, mb: Mailbox, ctx: Ctx) {
     loop {
         let cmd = NextCmd(mb.clone()).await;
+        // `<cmd>!`: the task ends when this call answers with an error (documented call pattern)
+        let (cmd, halt) = match cmd.strip_suffix('!') {
+            Some(c) => (c.to_string(), true),
+            None => (cmd, false),
+        };
         let (op, arg) = cmd.split_once(':').unwrap_or((&cmd, ""));
         match op {
             "dr" => {
@@ -248,6 +272,9 @@ async fn server_stream_task(name: String, mut st: SrvStream, mb: Mailbox, ctx: C
             }
             _ => stream_cmd!(ctx, name, st, cmd),
         }
+        if halt && ctx.last_failed(&name) {
+            return;
+        }
     }
 }
 
@@ -265,7 +292,7 @@ async fn server_request_task(name: String, resolver: h3::server::RequestResolver
                 ctx.log(&name, "dr", "ok".into());
                 return;
             }
-            "res" => {
+            "res" | "res!" => {
                 ctx.begin(&name, "res");
                 match resolver.resolve_request().await {
                     Ok((req, st)) => {
@@ -278,7 +305,7 @@ async fn server_request_task(name: String, resolver: h3::server::RequestResolver
                     }
                 }
             }
-            other => ctx.log(&name, other, "bad-cmd".into()),
+            other => ctx.log(&name, other.trim_end_matches('!'), "bad-cmd".into()),
         }
     };
     server_stream_task(name, st, mb, ctx).await
@@ -641,6 +668,10 @@ async fn wt_session_task(sess: WtSession, mb: Mailbox, ctx: Ctx) {
 async fn client_stream_task(name: String, mut st: CliStream, mb: Mailbox, ctx: Ctx) {
     loop {
         let cmd = NextCmd(mb.clone()).await;
+        let (cmd, halt) = match cmd.strip_suffix('!') {
+            Some(c) => (c.to_string(), true),
+            None => (cmd, false),
+        };
         let (op, _arg) = cmd.split_once(':').unwrap_or((&cmd, ""));
         match op {
             "dr" => {
@@ -664,6 +695,9 @@ async fn client_stream_task(name: String, mut st: CliStream, mb: Mailbox, ctx: C
                 ctx.log(&name, "rr", r);
             }
             _ => stream_cmd!(ctx, name, st, cmd),
+        }
+        if halt && ctx.last_failed(&name) {
+            return;
         }
     }
 }
@@ -938,7 +972,7 @@ impl Run {
                     return true;
                 }
                 if !self.exec.post(task, cmd) {
-                    self.ctx.trace.borrow_mut().push(format!("{}.{}=no-task", task, cmd.split(':').next().unwrap_or("")));
+                    self.ctx.trace.borrow_mut().push(format!("{}.{}=no-task", task, cmd.split(':').next().unwrap_or("").trim_end_matches('!')));
                 }
                 return true;
             }
